@@ -661,6 +661,28 @@ def gen_rules(r: random.Random, profile: str) -> Dict[str, Any]:
             w.scripts[a["name"]] = turns
         add_user_rules(r, w, p_bystander=0.25)
         return w.scenario()
+    if P == "halt" and r.random() < 0.05:
+        # a rally far beyond +100% under a rule with a large rate: the moving line passes 100% of the time-0 price
+        p0 = float(r.choice([100, 300]))
+        w.add_market("M0", 1.0, p0)
+        w.add_scripted("SA", 2, False)
+        rate = r.choice([0.4, 0.6])
+        path = [1.1, 1.0 + rate + 0.05, 1.0 + rate + 0.1, 1.0 + 2 * rate + 0.05, 1.0 + 2 * rate + 0.1,
+                min(1.0 + 3 * rate - 0.1, 2.1), 1.0 + 3 * rate - 0.05, 1.0 + 3 * rate + 0.05, 1.0 + 3 * rate + 0.1, 1.0 + 4 * rate - 0.05]
+        w.add_session(len(path) * 3 + 4, True, True, max_normal=2, max_hft=1, rate=1.0)
+        w.cfg["TH0"] = {"class": "TradingHaltRule", "targetMarkets": ["M0"], "triggerChangeRate": rate,
+                        "haltingTimeLength": r.randint(1, 2), "enabled": True}
+        w.sessions[0].setdefault("events", []).append("TH0")
+        seller, buyer = [], []
+        for f_ in path:
+            for side, turns in (("s", seller), ("b", buyer)):
+                turns.append([{"k": "limit", "m": 0, "side": side, "px": {"mode": "relp0", "f": f_}, "vol": 1}])
+            for turns in (seller, buyer):  # room for the halts in between
+                turns.append([])
+                turns.append([])
+        w.scripts[w.scripted[0]["name"]] = seller + [[] for _ in range(6)]
+        w.scripts[w.scripted[1]["name"]] = buyer + [[] for _ in range(6)]
+        return w.scenario()
     if P == "halt":
         n = r.randint(1, 3)
         for i in range(n):
